@@ -382,6 +382,56 @@ pub fn value_reference(m: &Model, ctx: &mut Ctx, rule: &str) {
     }
 }
 
+/// C07.nest (CHOICE in CHOICE): `val Ty8 ::= m3 : m5 : TRUE` with `Ty8 ::= CHOICE { m3 CHOICE { m4 INTEGER, m5 BOOLEAN }, .. }`.
+/// The inner value is a value of the anonymous type of alternative m3, which is generated as `Ty8M3` (the generators turn
+/// the linker's internal name INNER$m3$Ty8 into it). link_with_type is evaluated on the nested value: afterwards the inner
+/// CHOICE value carries that internal name — not the spelling of the type's keyword (`CHOICE::m5(true)` names nothing).
+pub fn nested_choice_value(m: &Model, ctx: &mut Ctx, rule: &str) {
+    use std::collections::BTreeMap as Map;
+    let Some(f) = m.fns.iter().find(|f| f.name == "link_with_type" && f.self_ty.as_deref() == Some("ASN1Value")) else {
+        ctx.fail_closed(rule, "anchor not found: ASN1Value::link_with_type");
+        return;
+    };
+    ctx.oblige(rule, "choice-in-choice", true);
+    let consts = const_resolver(m);
+    let params: Vec<String> = f.sig.inputs.iter().filter_map(|a| match a { syn::FnArg::Typed(t) => Some(tok(&t.pat)), _ => None }).collect();
+    let mut inl = inline_all(m, &["ASN1Type", "ASN1Value"]);
+    inl.retain(|k, _| [".is_builtin_type", ".as_str", "nested_type_name", ".link_with_type"].contains(&k.as_str()));
+    let ev = Evaluator { consts: &consts, call_hook: &crate::eval::no_hook, inline: Some(&inl) };
+    let named = |n: &str, fields: Vec<(&str, Val)>| Val::Ctor(n.to_string(), vec![], fields.into_iter().map(|(k, v)| (k.to_string(), v)).collect::<Map<_, _>>());
+    let option = |n: &str, ty: Val| named("ChoiceOption", vec![("name", Val::Str(n.into())), ("ty", ty), ("is_recursive", Val::Bool(false)), ("tag", Val::none()), ("constraints", Val::List(vec![]))]);
+    let choice = |os: Vec<Val>| Val::Ctor("Choice".into(), vec![named("Choice", vec![("options", Val::List(os)), ("extensible", Val::none()), ("constraints", Val::List(vec![]))])], Map::new());
+    let boolean = Val::Ctor("Boolean".into(), vec![named("Boolean", vec![("constraints", Val::List(vec![]))])], Map::new());
+    let inner_ty = choice(vec![option("m5", boolean.clone())]);
+    let outer_ty = choice(vec![option("m3", inner_ty), option("m9", boolean)]);
+    let cv = |variant: &str, inner: Val| named("Choice", vec![("type_name", Val::none()), ("variant_name", Val::Str(variant.into())), ("inner_value", inner)]);
+    let value = cv("m3", cv("m5", Val::Ctor("Boolean".into(), vec![Val::Bool(true)], Map::new())));
+    let mut env = Env::new();
+    env.insert("self".into(), value);
+    env.insert(params.first().cloned().unwrap_or("tlds".into()), crate::eval::new_map());
+    env.insert(params.get(1).cloned().unwrap_or("ty".into()), outer_ty);
+    env.insert(params.get(2).cloned().unwrap_or("type_name".into()), Val::some(Val::Str("Ty8".into())));
+    match ev.eval_fn_body(&f.block, &mut env) {
+        Ok(Val::Ctor(ok, _, _)) if ok == "Ok" => {
+            let inner_name = match env.get("self") {
+                Some(Val::Ctor(_, _, fl)) => match fl.get("inner_value") {
+                    Some(Val::Ctor(_, _, il)) => il.get("type_name").map(|v| v.show()),
+                    _ => None,
+                },
+                _ => None,
+            }.unwrap_or_default();
+            let prefix = match consts("INTERNAL_NESTED_TYPE_NAME_PREFIX") { Some(Val::Str(p)) => p, _ => "INNER$".to_string() };
+            if !inner_name.contains(&format!("{}m3$Ty8", prefix)) {
+                ctx.violate(rule, "choice-in-choice:inner-type-name", &f.file, f.line,
+                    &format!("`val Ty8 ::= m3 : m5 : TRUE` with `m3 CHOICE {{ .. }}` written inside Ty8: after linking, the inner CHOICE value is typed {} — the generators render `Ty8::m3({}::m5(true))`; the anonymous type of the alternative is generated as `Ty8M3` (internal name {}m3$Ty8)", inner_name, inner_name.trim_start_matches("Some(\"").trim_end_matches("\")"), prefix));
+            }
+        }
+        Ok(Val::Ctor(e, _, _)) if e == "Err" => {}
+        Ok(o) => ctx.fail_closed(rule, &format!("[choice-in-choice]: {}", o.show().chars().take(100).collect::<String>())),
+        Err(e) => ctx.fail_closed(rule, &format!("[choice-in-choice]: {}", e)),
+    }
+}
+
 /// C07.cstring: "character strings with doubled quotes unescaped" starts with finding the end of the literal: the scanner
 /// behind raw_string_literal (take_until_and_not(QUOTE, QUOTE QUOTE)) is evaluated on the text after an opening quotation
 /// mark — the literal ends at the first quotation mark that is not doubled, whatever follows later in the file.
@@ -981,6 +1031,7 @@ Not applicable (run-time values): resolution of references, nested CHOICE/SEQUEN
     enumeral_lookup(m, ctx, "C07.named");
     inline_named_number(m, ctx, "C07.named");
     value_reference(m, ctx, "C07.ref");
+    nested_choice_value(m, ctx, "C07.nest");
     cstring_end(m, ctx, "C07.cstring");
     single_element_list(m, ctx, "C07.list");
     nesting(m, ctx, "C07.nest");
